@@ -7,7 +7,7 @@ from core import op_place
 from lib import *
 from props import shared
 
-LEVEL = 'proof'
+LEVEL = 'other'     # since F82: two rules (1u, 1Le) carry reviewed exceptions (the torn append; five error exits that let go of a log file handle)
 FLOOR = 40
 EXPLANATION = ('Ordering core of C12 decided on MIR of every path: sync-before-hand-over in Log::flush_one, hand-over queue '
                'confinement, enact_plan reachable only from DbInner::enact_logs through Log::read_next, column flush loop '
